@@ -232,6 +232,15 @@ def extract(tree):
                     ("while(r<end)", 1), ("uint8_t*r=bufstart,*end=r+buflen;", 1), ("int32_tindent_col=(int32_t)top.column-1;", 1)):
         if body.count(frag) != n:
             raise ExtractError("stringend: loop bound / indent column `%s` expected %d time(s), found %d" % (frag, n, body.count(frag)))
+    # the pointer accesses of the two re-indent loops, in source order (`Parse/StrIdx.lean` mirrors exactly these: checkI / forCheckI /
+    # crlfAtI / rewriteI / skipI); no indexed access and no other pointer arithmetic on the cursors inside the loops
+    a, z = body.find("if(state->flags&PFLAG_LONGSTRING){"), body.find("if(buflen>")
+    if a < 0 or z < a:
+        raise ExtractError("stringend: long-string block not found")
+    region = body[a:z].replace("uint8_t*", "uint8_t ").replace(",*end=", ", end=")      # declarators are not dereferences
+    if re.search(r"\b(r|w|end|bufstart)\[", region) or re.search(r"\b(r|w)(\+=|-=|--)|--(r|w)\b", region):
+        raise ExtractError("stringend: indexed access / cursor arithmetic in the re-indent loops not recognised")
+    c["stringendLoopOps"] = re.findall(r"\*w\+\+=\*r\+\+|\*r\+\+|\*\(r\+1\)|\*r\b|\*w\b|\bw=bufstart|\br=bufstart|buflen=\(int32_t\)\(w-bufstart\)", region)
     # ---- the three stacks: growth policy of DEF_PARSER_STACK, of the string branch of parser/insert, of clone
     m = re.search(r"#define\s+DEF_PARSER_STACK\(NAME,\s*T,\s*STACK,\s*STACKCOUNT,\s*STACKCAP\)((?:[^\n]*\\\n)*[^\n]*\n)", raw)
     if not m:
@@ -570,6 +579,8 @@ def render(tree):
     L.append("/-- memory events (stack primitive calls, count updates, indexed accesses) of every parse.c function that `Parse/Phys.lean` mirrors, in source order -/")
     L.append("abbrev memOps : List (String × List String) := [\n  %s]" % ",\n  ".join(
         '("%s", [%s])' % (fn, ", ".join('"%s"' % o for o in ops)) for fn, ops in c["memOps"]))
+    L.append("/-- `stringend`: the cursor dereferences / assignments of the two re-indent loops in source order -/")
+    L.append("abbrev stringendLoopOps : List String := [%s]" % ", ".join('"%s"' % o for o in c["stringendLoopOps"]))
     L.append("/-- every write to `->error` / `->flag` in parse.c, per function, in source order (`error=heap`: the `janet_string` of `delim_error`; "
              "`error=static`: a string literal; consecutive literal sites of one function merged) -/")
     L.append("abbrev errFlagWrites : List (String × List String) := [\n  %s]" % ",\n  ".join(
